@@ -132,7 +132,7 @@ func corner() []input {
 func (prop) Generate(r *core.RNG, tier string) []json.RawMessage {
 	modules, perModule, crashes := 7, 16, 0
 	if tier == "thorough" {
-		modules, perModule, crashes = 20, 120, 4
+		modules, perModule, crashes = 16, 120, 3
 	}
 	var out []json.RawMessage
 	for _, in := range corner() {
@@ -390,7 +390,7 @@ func crashExplore(in input, base *pipe.Observation, scratch string) (*crashStats
 		return true, ""
 	}
 	for k := 1; k <= 600; k++ {
-		if k > 150 && k%4 != 0 { // long runs: every crash point up to 150, then every fourth
+		if k > 120 && k%4 != 0 { // long runs: every crash point up to 120, then every fourth
 			continue
 		}
 		dir := fmt.Sprintf("%s/k%d", scratch, k)
